@@ -42,9 +42,16 @@ class Pool:
         class SubDirected(E["DirectedEdge"]):
             pass
 
-        class FalsyVertex(E["Vertex"]):            # truth value must not matter anywhere
-            def __bool__(self):
+        class PlainVertex(E["Vertex"]):
+            pass
+
+        class MarkedVertex(E["Vertex"]):
+            pass
+
+        class FalsyVertex(PlainVertex, MarkedVertex):   # truth value must not matter anywhere; its MRO (Falsy, Plain, Marked, Vertex)
+            def __bool__(self):                          # differs from its __base__ chain (Falsy, Plain, Vertex)
                 return False
+        self.vclasses = {"PlainVertex": PlainVertex, "MarkedVertex": MarkedVertex, "FalsyVertex": FalsyVertex}
         self.classes = {"DirectedEdge": E["DirectedEdge"], "UnDirectedEdge": E["UnDirectedEdge"], "OtherLink": OtherLink,
                         "SubDirected": SubDirected}
         # two vertices share a user-chosen uid (uids are labels, not identities: nothing may key on them)
@@ -72,6 +79,8 @@ class Pool:
         self.rfilters = [None, lambda v: True, lambda v: v is not V0, lambda v: []]
         for k_, v_ in enumerate(self.V):
             v_.tag = k_ % 2
+        for k_, v_ in enumerate(self.V + self.U):
+            v_.pname = "n%d" % k_                  # a unique printable name (title format of the PlantUML operation)
         self.filters1 = [None, lambda e: True, lambda e: 0, lambda e: isinstance(e, E["DirectedEdge"]),
                          _faulty1(E["UnDirectedEdge"])]
 
@@ -819,6 +828,92 @@ def op_table():
             if isinstance(l, DE) and not any(e["from"] == a and e["to"] == b and e.get("arrows") == "to" for e in edges):
                 raise PropertyViolation(f"C15: the directed link {a}->{b} has no arrowed edge")
 
+    @reg("plantuml_src", 2, "puml")
+    def _(P, u, kind):
+        """C14: render_to_plantuml_src against the statement, by parsing the text back: one declaration per member (type and
+        title from the options of the nearest configured class, class name), one relation line per internal link in v1 -> v2
+        orientation with the arrow ends of the nearest configured class, no line without a link, None for an empty universe"""
+        import re as _re
+        if "plantuml" not in P.mods:
+            return
+        E = P.eg
+        uni = P.U[u % len(P.U)]
+        V = uni.vertices
+        incident = []
+        for v in V:
+            for l in getattr(v, "links", ()):
+                if len(l.vertices) != 2 or any(e is None for e in l.vertices) or not hasattr(type(l), "v1"):
+                    return                      # outside the domain of the statement (two-ended links between vertices)
+                if not any(l is m for m in incident):
+                    incident.append(l)
+        kind = kind % 4
+        vopt = {"type": "object", "show_attrs": ["pname", "tag"], "title_format": "$id"}
+        options = {E["Vertex"]: vopt, E["DirectedEdge"]: {"v1side": "", "v2side": ">"}, E["UnDirectedEdge"]: {"v1side": "", "v2side": ""},
+                   E["TwoEndedLink"]: {"v1side": "x", "v2side": "o"}}
+        if kind in (1, 3):
+            vopt["title_format"] = "{pname}"
+            options["skinparams"] = {"dpi": "300"}
+        if kind in (2, 3):
+            # class-specific entries: the nearest configured class in the MRO decides
+            options[P.vclasses["MarkedVertex"]] = {"type": "class", "show_attrs": ["pname"], "title_format": "m_{pname}"}
+            options[P.classes["SubDirected"]] = {"v1side": "<", "v2side": "*"}
+            options[E["Universe"]] = {"type": "package", "show_attrs": [".+name"], "title_format": "$id",
+                                      "stereotype_skinparams": {"BackgroundColor": "White"}}
+
+        def nearest(cls):
+            for c in cls.__mro__:
+                if c in options:
+                    return options[c]
+            raise LookupError(cls)
+
+        def title(v):
+            o = nearest(type(v))
+            if o["title_format"] == "$id":
+                return hex(id(v))
+            return o["title_format"].format(pname=v.pname, tag=getattr(v, "tag", None))
+        try:
+            want_decl = sorted((nearest(type(v))["type"], title(v), type(v).__name__) for v in V)
+            rel = lambda l: (title(l.v1), nearest(type(l))["v1side"], nearest(type(l))["v2side"], title(l.v2))
+            inc_rel = sorted(rel(l) for l in incident)
+            int_rel = sorted(rel(l) for l in incident if any(l.v1 is m for m in V) and any(l.v2 is m for m in V))
+        except (LookupError, AttributeError, KeyError):
+            return
+        import copy
+        # the same table object is used by every even-kind call of a history (entries are added / removed between renders, as a
+        # user refining the configuration would): nothing the renderer leaves behind in it may change what is configured
+        live = P.__dict__.setdefault("puml_live", {})
+        for k_ in list(P.__dict__.get("puml_mine", ())):
+            if k_ not in options:
+                live.pop(k_, None)
+        live.update(options)
+        P.puml_mine = set(options)
+        got = P.mods["plantuml"].render_to_plantuml_src(uni, copy.deepcopy(options) if kind % 2 else live)
+        if not V:
+            if got is not None:
+                raise PropertyViolation("C14: an empty universe was rendered to text")
+            return
+        if not isinstance(got, str) or not got.startswith("@startuml\n") or not got.endswith("@enduml\n"):
+            raise PropertyViolation("C14: the text is not enclosed in @startuml / @enduml")
+        decls, rels = [], []
+        for line in got.split("\n"):
+            m = _re.match(r"^(\w+) (\S+) <<(\w+)>> \{$", line)
+            if m:
+                decls.append(m.groups())
+                continue
+            m = _re.match(r"^(\S+) ([^\s-]*)--([^\s-]*) (\S+)$", line)
+            if m:
+                rels.append(m.groups())
+        if sorted(decls) != want_decl:
+            raise PropertyViolation(f"C14: declarations {sorted(decls)} for members {want_decl}")
+        rels.sort()
+        from collections import Counter
+        cg, ci, ca = Counter(rels), Counter(int_rel), Counter(inc_rel)
+        for k_ in set(cg) | set(ci):
+            if cg[k_] < ci[k_]:
+                raise PropertyViolation(f"C14: {ci[k_]} internal link(s) {k_} but {cg[k_]} relation line(s)")
+            if cg[k_] > ca[k_]:
+                raise PropertyViolation(f"C14: {cg[k_]} relation line(s) {k_} for {ca[k_]} link(s) between those vertices")
+
     @reg("mutate_last_result", 1, "query")
     def _(P, k):
         # a caller may do anything with a container it was handed (C12)
@@ -1033,6 +1128,7 @@ GROUPS = {
     "C06": ("assoc", "explicit", "member", "traverse"), "C07": ("assoc", "explicit", "member", "traverse"),
     "C08": ("assoc", "explicit", "member", "traverse"),
     "C11": ("assoc", "explicit", "member", "adj"), "C20": ("rand",), "C15": ("assoc", "explicit", "member", "pyvis"),
+    "C14": ("assoc", "explicit", "member", "puml"),
 }
 
 
